@@ -1,6 +1,7 @@
 //! verif-harness: runs the *implementation* (current /repo working tree, hooks on) on generated
 //! inputs and writes case lines (inputs + observed outputs) for the Gallina checkers.
 mod alloc;
+mod conn;
 mod framing;
 mod rng;
 
@@ -38,6 +39,12 @@ fn main() {
             let mut st = framing::Stats::new();
             let thorough = args.iter().any(|a| a == "--thorough");
             framing::generate(seed, n, thorough, &mut lines, &mut st);
+            stats_json = st.json();
+        }
+        "conn" => {
+            let mut st = conn::Stats::new();
+            let bias: u64 = arg_val(&args, "--bias").and_then(|s| s.parse().ok()).unwrap_or(0);
+            conn::generate(seed, n, bias, &mut lines, &mut st);
             stats_json = st.json();
         }
         "framing-replay" => {
